@@ -80,7 +80,7 @@ def run(ctx):
         sel = list(cases)
         traced = set(id(c) for c in rnd.sample(plain, min(1200, len(plain))) + rnd.sample(hazard, min(400, len(hazard))))
     else:
-        sel = rnd.sample(plain, min(200, len(plain))) + rnd.sample(hazard, min(60, len(hazard)))
+        sel = rnd.sample(plain, min(160, len(plain))) + rnd.sample(hazard, min(50, len(hazard)))
         traced = set(id(c) for c in sel)
     for c in sel:
         c["trace"] = id(c) in traced
